@@ -104,7 +104,19 @@ def T_defaults():
     return "defaults", sp, insts, {}
 
 
+def T_baseskey():
+    """the other spelling of the base choice ('bases': [space]) - construction part only"""
+    sp = Spec(spaces={
+        "O": S_(cells={"q": C_("lambda x: x + i + k")}, spaces={"OC": S_(cells={"oc": C_("lambda: i*2")})}),
+        "S": S_(formula={"params": "i, j=1", "base": ("O",), "base_key": "bases", "refs": {"k": "i*10 + j"}},
+                cells={"own": C_("lambda: 1")}),
+    })
+    insts = [(("S",), (("item", (1,)),)), (("S",), (("item", (1, 3)),))]
+    return "baseskey", sp, insts, {}
+
+
 TEMPLATES = [T_inherit, T_nested, T_otherbase, T_readscells, T_objrefs, T_shadow, T_defaults]
+PART_A_ONLY = [T_baseskey]
 
 # ------------------------------------------------------------------------------------------ oracle
 
@@ -440,10 +452,18 @@ def make_script(spec0, insts, hist, inst, probe, evals, flat=None):
         L.append("print('old handle dead:', dead, 'identical:', new is h)")
         L.append("sys.exit(0 if dead or new is h else 1)")
     elif kind == "names":
-        L.append("a = %s; b = %s" % (tgt_expr, want_expr if have_static else "None"))
-        L.append("print(sorted(a.cells), sorted(b.cells), sorted(a.named_spaces), sorted(b.named_spaces))")
-        L.append("sys.exit(0 if sorted(a.cells) == sorted(b.cells) and sorted(a.named_spaces) == "
-                 "sorted(b.named_spaces) else 1)")
+        L.append("def tree(s): return (sorted(s.cells), {n: tree(c) for n, c in sorted(s.named_spaces.items())})")
+        L.append("a = tree(%s); b = %s" % (tgt_expr, "tree(%s)" % want_expr if have_static else "None"))
+        L.append("print('instance:', a)\nprint('base    :', b)")
+        L.append("sys.exit(0 if a == b else 1)")
+    elif kind == "old":
+        L.append("served = []")
+        L.append("def walk(s, p):\n    for n, c in s.cells.items():\n        for a in ([()] if not c.parameters else [(0,), (2,)]):\n"
+                 "            r = val(lambda: c(*a))\n            if r[0] == 'v': served.append((p + n, a, r[1]))\n"
+                 "    for n, ch in s.named_spaces.items(): walk(ch, p + n + '.')")
+        L.append("try:\n    if h is not None: walk(h, '')\nexcept DeletedObjectError: pass")
+        L.append("print('old handle still serves:', served)")
+        L.append("sys.exit(1 if served else 0)")
     else:
         L.append("got = val(lambda: %s)" % tgt_expr)
         L.append("print(got)")
@@ -524,7 +544,7 @@ def _edits(spec, insts, meta):
             if r[0] == "lit":
                 E.append(("set_ref", p, n, lit(r[1] + 1, r[2])))
             alt = meta.get("ref_alternatives", {}).get((p, n))
-            if alt and alt != r:
+            if alt and alt != r and spec.exists(alt[1]):
                 E.append(("set_ref", p, n, alt))
             E.append(("del_ref", p, n))
         if "nr" not in taken:
@@ -598,6 +618,12 @@ def inst_kind(inst):
 # ------------------------------------------------------------------------------------------ workers
 
 def run_history(tname, hist, evals):
+    key = ("hist", tname, tuple(map(repr, hist)), tuple(evals))
+    return guarded(lambda: _run_history(tname, hist, evals), key, (tname[2:], hist[-1][0] if hist else "construction"),
+                   "history %s" % "; ".join(code_op(e) for e in hist))
+
+
+def _run_history(tname, hist, evals):
     """one history on one template; returns a record"""
     tmpl = {t.__name__: t for t in TEMPLATES}[tname]
     kind, spec0, insts, meta = tmpl()
@@ -668,9 +694,37 @@ def run_history(tname, hist, evals):
     return rec
 
 
+def run_history_min(tname, hist, evals):
+    """run a history; when it fails after more than one edit, look for a shorter failing sub-history (single
+    edits, then ordered pairs, every step evaluated) and report that one's features, so that one defect gets one
+    tag set however long the history that ran into it"""
+    rec = run_history(tname, hist, evals)
+    if not rec.get("fail") or len(hist) < 2:
+        return rec
+    subs = [[e] for e in hist] + [[a, b] for i, a in enumerate(hist) for b in hist[i + 1:]]
+    for sub in subs:
+        if len(sub) >= len(hist) and all(evals):
+            continue
+        r2 = run_history(tname, sub, tuple([True] * len(sub)))
+        if r2.get("fail"):
+            f = dict(r2["fail"])
+            f["what"] = f["what"] + "   [minimised from the history %s]" % "; ".join(code_op(e) for e in hist)
+            f["case"] = rec["key"]
+            rec["fail"] = f
+            return rec
+    # only the whole history fails: name every edit since the last evaluation
+    extra = []
+    last_eval = max([i for i, ev in enumerate(evals[:-1]) if ev] + [-1])
+    for e in hist[last_eval + 1:-1]:
+        extra.append("with:" + e[0])
+    if extra:
+        rec["fail"] = dict(rec["fail"], tags=tuple(rec["fail"]["tags"]) + tuple(extra))
+    return rec
+
+
 def worker_hist(job):
     """all histories `prefix + [e]`; the prefix alone is the business of the length-1 job"""
-    tname, prefix, depth, masks, thin = job
+    tname, prefix, depth, masks, thin, lo, hi = job
     tmpl = {t.__name__: t for t in TEMPLATES}[tname]
     _, spec0, insts, meta = tmpl()
     insts = meta.get("hist_insts", insts)
@@ -682,6 +736,8 @@ def worker_hist(job):
         sp.apply(e)
     out = []
     for j, e in enumerate(edits(sp, insts, meta)):
+        if not lo <= j < hi:
+            continue
         if thin is not None and (e[0] not in CORE_KINDS or (thin + j) % 3):
             continue
         s2 = sp.copy()
@@ -694,7 +750,7 @@ def worker_hist(job):
         if masks:
             ms.append(tuple([False] * (len(hist) - 1) + [True]))
         for ev in ms:
-            out.append(run_history(tname, hist, ev))
+            out.append(run_history_min(tname, hist, ev))
     return out
 
 
@@ -721,7 +777,7 @@ def worker_random(job):
             evals.append(rng.random() < 0.7)
         if hist:
             evals[-1] = True
-            out.append(run_history(tname, hist, tuple(evals)))
+            out.append(run_history_min(tname, hist, tuple(evals)))
     return out
 
 
@@ -754,8 +810,19 @@ def spellings(params, args):
 
 
 def part_a(res):
+    for t in TEMPLATES + PART_A_ONLY:
+        try:
+            _part_a(res, t)
+        except Exception as e:
+            if not raised_inside_modelx(e):
+                raise
+            res.fail(tags=("construction", t.__name__[2:], "unexpected-exception", type(e).__name__),
+                     what="construction/identity/isolation checks on template %s: %s: %s" % (t.__name__, type(e).__name__, e))
+
+
+def _part_a(res, t):
     """construction, identity and isolation without any edit"""
-    for t in TEMPLATES:
+    if True:
         kind, spec0, insts, meta = t()
         reset()
         m = build(spec0, "M")
@@ -841,6 +908,8 @@ def part_a(res):
                 key = ("isolation", kind, inst_path(inst), cn)
                 with res.case(key, nontrivial=True):
                     st, tgt = static_copy(spec0, inst)
+                    if cn not in st.all_cells(tgt):
+                        continue                     # names differ: reported by the construction case
                     defsp, _ = st.all_cells(tgt)[cn]
                     st2 = st.copy()
                     if defsp != tgt:      # define an override carrying the input in the static copy
@@ -898,20 +967,28 @@ def run(res, tier, seed):
     jobs = []
     names = [t.__name__ for t in TEMPLATES]
     # length 1: one job per template
-    for tn in names:
-        jobs.append((tn, (), 1, False, None))
+    for t in TEMPLATES:
+        kind, spec0, insts, meta = t()
+        n1 = len(edits(spec0, meta.get("hist_insts", insts), meta))
+        for lo in range(0, n1, 8):
+            jobs.append((t.__name__, (), 1, False, None, lo, lo + 8))
     # length 2: one job per (template, first edit); quick: core kinds only and every third pair
     for t in TEMPLATES:
         kind, spec0, insts, meta = t()
         for j, e in enumerate(edits(spec0, meta.get("hist_insts", insts), meta)):
             if tier == "quick" and e[0] not in CORE_KINDS:
                 continue
-            jobs.append((t.__name__, (e,), 2, tier != "quick", j if tier == "quick" else None))
+            s1 = spec0.copy()
+            s1.apply(e)
+            n2 = len(edits(s1, meta.get("hist_insts", insts), meta))
+            chunk = 30 if tier == "quick" else 10
+            for lo in range(0, n2, chunk):
+                jobs.append((t.__name__, (e,), 2, tier != "quick", j if tier == "quick" else None, lo, lo + chunk))
     complete = run_jobs(res, jobs, _job)
     if tier != "quick" and complete:
         rj = []
-        for k in range(56):
-            rj.append(("R", names[k % len(names)], seed * 1000 + k, 3 + (k % 2), 12))
+        for k in range(224):
+            rj.append(("R", names[k % len(names)], seed * 1000 + k, 3 + (k % 2), 3))
         complete = run_jobs(res, rj, _job) and complete
     res.exhaustive = bool(complete)
     res.notes.append("part A (construction/identity/isolation) %.1fs" % (time.time() - t0))
@@ -920,12 +997,12 @@ def run(res, tier, seed):
 def _job(job):
     if job[0] == "R":
         return worker_random(job[1:])
-    tname, prefix, depth, masks, thin = job
+    tname, prefix, depth, masks, thin, lo, hi = job
     if depth == 1:
         tmpl = {t.__name__: t for t in TEMPLATES}[tname]
         _, spec0, insts, meta = tmpl()
         insts = meta.get("hist_insts", insts)
-        return [run_history(tname, [e], (True,)) for e in edits(spec0, insts, meta)]
+        return [run_history(tname, [e], (True,)) for e in edits(spec0, insts, meta)[lo:hi]]
     return worker_hist(job)
 
 
